@@ -420,6 +420,151 @@ def producer_sweep(ctx):
 def replay_producer(c):
   return not run_producer_case(c)
 
+# ----------------------------------------------------------------------------------------------------
+# Arguments that are elements of the TARGET CONTAINER ITSELF (oracle only, every run): own child at the same / another position handed to insert /
+# item assignment / rebind (plain and pg.Insertion) / slice assignment / extend / append / += of a List, to item assignment / update / setdefault /
+# rebind of a Dict, to rebind of an Object -- with every index class (every negative index, the own position, other positions, past the end,
+# before the start), as root and nested, with and without change notification.  After the operation: the integrity walk (no node object twice,
+# parent / path exact; elements that are no longer stored are roots), then a follow-up write into the element at the written position, the walk,
+# a follow-up delete of that position, the walk.
+def own_element_cases():
+  for where in ('root', 'nested'):
+    for notify in (True, False):
+      for n in (3, 4):
+        for j in range(n):
+          for i in range(-n - 1, n + 2):
+            for op in ('insert', 'rebind-insertion', 'setitem', 'rebind'):
+              yield dict(kind='own', container='List', where=where, notify=notify, n=n, src=j, idx=i, op=op)
+          for op in ('append', 'extend', 'iadd'):
+            yield dict(kind='own', container='List', where=where, notify=notify, n=n, src=j, idx=None, op=op)
+          for a in range(0, n + 1):
+            for b in (a, a + 1):
+              yield dict(kind='own', container='List', where=where, notify=notify, n=n, src=j, idx=[a, b], op='slice')
+      for src in ('a', 'b'):
+        for dst in ('a', 'b', 'new'):
+          for op in ('setitem', 'update', 'setdefault', 'rebind', 'ior'):
+            yield dict(kind='own', container='Dict', where=where, notify=notify, n=2, src=src, idx=dst, op=op)
+      for src in ('x', 'y'):
+        for dst in ('x', 'y', 'z'):
+          yield dict(kind='own', container='Object', where=where, notify=notify, n=3, src=src, idx=dst, op='rebind')
+
+def run_own_case(c):
+  P = D.pg()
+  A, B, C = D.classes()
+  def elem(t): return P.Dict(tag=t, sub=P.List([P.Dict(k=t)]))
+  if c['container'] == 'List':
+    tgt = P.List([elem(t) for t in range(c['n'])])
+  elif c['container'] == 'Dict':
+    tgt = P.Dict(a=elem(0), b=elem(1))
+  else:
+    tgt = B(x=elem(0), y=elem(1), z=None)
+  root = tgt if c['where'] == 'root' else P.Dict(h=P.List([7, tgt]))
+  held = [v for _, v in tgt.sym_items() if D.is_sym(v)]
+  src = tgt[c['src']] if c['container'] != 'Object' else tgt.sym_getattr(c['src'])
+  i, op = c['idx'], c['op']
+  def do():
+    if c['container'] == 'List':
+      if op == 'insert': tgt.insert(i, src)
+      elif op == 'rebind-insertion': tgt.rebind({i: P.Insertion(src)})
+      elif op == 'setitem': tgt[i] = src
+      elif op == 'rebind': tgt.rebind({i: src})
+      elif op == 'append': tgt.append(src)
+      elif op == 'extend': tgt.extend([src, 5])
+      elif op == 'iadd': tgt.__iadd__([src])
+      elif op == 'slice': tgt[i[0]:i[1]] = [src, 9]
+    elif c['container'] == 'Dict':
+      if op == 'setitem': tgt[i] = src
+      elif op == 'update': tgt.update({i: src})
+      elif op == 'setdefault': tgt.setdefault(i, src)
+      elif op == 'rebind': tgt.rebind({i: src})
+      elif op == 'ior': tgt.__ior__({i: src})
+    else:
+      tgt.rebind({i: src})
+  exc = None
+  try:
+    with (P.notify_on_change(False) if not c['notify'] else _nullctx()), D.watchdog(10):
+      do()
+  except BaseException as e:      # pylint: disable=broad-except
+    exc = e
+    if isinstance(e, D.Hang):
+      return [('cycle', 'the operation does not return')]
+  def walk_all(stage):
+    impl = D.Impl(); impl.roots.append(root)
+    stored = set()
+    D.walk(root, lambda x, p, k: stored.add(id(x)))
+    for v in held:
+      if id(v) not in stored:
+        impl.roots.append(v)        # an element the operation replaced / removed: the user still holds it
+    h = check_forest(impl)
+    return [(h[0][0], '%s: %s' % (stage, h[0][1]))] if h else []
+  desc = '%s.%s(%s, own element #%s)%s' % (c['container'], op, i, c['src'], ' raised %s' % type(exc).__name__ if exc else '')
+  h = walk_all('after ' + desc)
+  if h: return h
+  if exc is not None:
+    return []
+  # follow-up write into the element now stored at the written position, then delete it
+  try:
+    if c['container'] == 'List' and len(tgt):
+      k = (i if isinstance(i, int) else i[0] if isinstance(i, list) else len(tgt) - 1)
+      k = max(min(k if k >= 0 else k + len(tgt) - (1 if op in ('insert', 'rebind-insertion') else 0), len(tgt) - 1), 0)
+      e = tgt[k]
+      if D.is_sym(e):
+        others = [deep_view_c01(v) for v in tgt if v is not e]
+        e['written'] = P.Dict(w=1)
+        if [deep_view_c01(v) for v in tgt if v is not e] != others:
+          return [('two-places', 'after %s, writing into the element at [%d] changed another element of the list' % (desc, k))]
+      h = walk_all('after %s and a write into the element at [%d]' % (desc, k))
+      if h: return h
+      if D.is_sym(e) and all(v is not e for v in held): held.append(e)
+      del tgt[k]
+      h = walk_all('after %s, a write into and the deletion of the element at [%d]' % (desc, k))
+      if h: return h
+    elif c['container'] == 'Dict' and i in tgt:
+      e = tgt[i]
+      if D.is_sym(e):
+        e['written'] = P.Dict(w=1)
+        if all(v is not e for v in held): held.append(e)
+      h = walk_all('after %s and a write into the element at %r' % (desc, i))
+      if h: return h
+      del tgt[i]
+      h = walk_all('after %s, a write into and the deletion of %r' % (desc, i))
+      if h: return h
+    elif c['container'] == 'Object':
+      e = tgt.sym_getattr(i)
+      if D.is_sym(e):
+        e['written'] = P.Dict(w=1)
+        if all(v is not e for v in held): held.append(e)
+      tgt.rebind({i: None}, raise_on_no_change=False)
+      h = walk_all('after %s, a write into and the replacement of %r' % (desc, i))
+      if h: return h
+  except BaseException as e2:     # pylint: disable=broad-except
+    return [('follow-up-raises', 'after %s the follow-up write / delete raises %s: %s' % (desc, type(e2).__name__, str(e2)[:100]))]
+  return []
+
+import contextlib as _clx
+def _nullctx(): return _clx.nullcontext()
+def deep_view_c01(x):
+  if D.is_sym(x): return (type(x).__name__, [(repr(k), deep_view_c01(v)) for k, v in D.sym_children(x)])
+  return repr(x)
+
+def own_element_sweep(ctx):
+  import time
+  t0 = time.time()
+  n = 0
+  for c in own_element_cases():
+    if not ctx.thorough and c['container'] == 'List' and c['n'] == 4 and c['op'] in ('setitem', 'rebind', 'slice') and not c['notify']:
+      continue
+    n += 1
+    ctx.evaluations += 1
+    for clause, what in run_own_case(c):
+      idx = c['idx']
+      cls = 'n/a' if not isinstance(idx, int) else 'negative' if idx < 0 else 'past-end' if idx >= c['n'] else 'own-position' if idx == c['src'] else 'other-position'
+      ctx.hit('C01/%s/%s.%s-own-element/%s' % (clause, c['container'], c['op'], cls), what, c)
+  ctx.extra['own_element_sweep'] = dict(oracle_only=True, cases=n, what='elements of the target container itself as arguments of insert / Insertion-rebind / item assignment / rebind / slice assignment / '
+                                        'append / extend / += (List), item assignment / update / setdefault / rebind / |= (Dict), rebind (Object); every index from -n-1 to n+1; root and nested; '
+                                        'with / without notification; integrity walk, follow-up write into the written element, delete, walk')
+  ctx.log('own-element sweep (oracle only): %d cases in %.1fs' % (n, time.time() - t0))
+
 def replay_construction(c):
   class Ctx:
     hits = []
@@ -434,6 +579,7 @@ def slice_sweep(ctx):
   construction_sweep(ctx)
   ref_sweep(ctx)
   producer_sweep(ctx)
+  own_element_sweep(ctx)
   import time
   from harness.props import symcore_gen as G
   t0 = time.time()
@@ -461,4 +607,6 @@ def replay(ctx, rp):
     return replay_ref(rp['case'])
   if isinstance(rp.get('case'), dict) and rp['case'].get('kind') == 'producer':
     return replay_producer(rp['case'])
+  if isinstance(rp.get('case'), dict) and rp['case'].get('kind') == 'own':
+    return not run_own_case(rp['case'])
   return D.replay_property(ctx, rp, Oracle)
